@@ -544,3 +544,39 @@ contract(E + "ExonCorrector.correct_misalignments#event_map", {"self": "rec:Exon
                             "all(any(event_map[k] == events[j] for j in range(_k0)) for k in event_map)"]}},
          requires=["all(events[j].read_region[0] >= 0 and events[j].read_region[1] >= 0 for j in range(len(events)))"],
          gen=lambda rng, n: _gen_event_lists(rng, n), canary="len(result) == 0")
+
+
+# ---- which alignment process_events is given: region and introns of the SAME (trimmed) read --------------------------------------------------
+def _call_args_extract(fdef):
+    """correct_misalignments: the statements that compute `read_region` and `read_introns` for the call of process_events, returning the pair;
+    drops the event-map loop, the look-ups of the isoform's region / introns in gene_info and the call itself"""
+    import copy
+    keep = [copy.deepcopy(n) for n in fdef.body if isinstance(n, ast.Assign) and ast.unparse(n.targets[0]) in ("intron_profile", "read_introns", "read_region", "alignment")]
+    names = {ast.unparse(n.targets[0]) for n in keep}
+    if not {"read_introns", "read_region"} <= names:
+        raise front.Missing("read_region / read_introns not found in correct_misalignments")
+    ret = ast.Return(value=ast.Tuple(elts=[ast.Name(id="read_region", ctx=ast.Load()), ast.Name(id="read_introns", ctx=ast.Load())], ctx=ast.Load()))
+    args = ast.arguments(posonlyargs=[], args=[ast.arg(arg=a) for a in ("self", "alignment_info")], kwonlyargs=[], kw_defaults=[], defaults=[])
+    return ast.fix_missing_locations(ast.FunctionDef(name="correct_misalignments", args=args, body=keep + [ret], decorator_list=[],
+                                                     lineno=fdef.lineno, col_offset=0))
+
+
+record("PysamRecord", {"reference_start": "int", "reference_end": "int"})
+record("ReadIntronProfile", {"read_features": IVS})
+record("CombinedProfileE", {"read_intron_profile": "rec:ReadIntronProfile"})
+record("AlignmentInfoFull", {"read_exons": IVS, "read_start": "int", "read_end": "int", "combined_profile": "rec:CombinedProfileE",
+                             "alignment": "rec:PysamRecord"})
+
+contract(E + "ExonCorrector.correct_misalignments#call_args", {"self": "rec:ExonCorrector", "alignment_info": "rec:AlignmentInfoFull"},
+         returns="tuple[tuple[int,int],list[tuple[int,int]]]", props=["C14"], extract=_call_args_extract, native=False,
+         locals={"read_introns": IVS},
+         # invariant of AlignmentInfo (set in __init__ and re-established by add_polya_info after trimming): start / end are those of the exon
+         # list, and the profile was built from that exon list; the raw pysam record may be LONGER (trimmed polyA / polyT blocks)
+         requires=["len(alignment_info.read_exons) >= 1", "alignment_info.read_start == alignment_info.read_exons[0][0]",
+                   "alignment_info.read_end == alignment_info.read_exons[len(alignment_info.read_exons) - 1][1]",
+                   "alignment_info.alignment.reference_start + 1 <= alignment_info.read_start",
+                   "alignment_info.read_end <= alignment_info.alignment.reference_end"],
+         # the region handed to process_events is the span of the exon list whose introns are handed to it
+         ensures=["result[0] == (alignment_info.read_exons[0][0], alignment_info.read_exons[len(alignment_info.read_exons) - 1][1])",
+                  "result[1] == alignment_info.combined_profile.read_intron_profile.read_features"],
+         canary="result[0][0] == alignment_info.alignment.reference_start + 1")
